@@ -15,9 +15,10 @@ ASSUME = ("Assumed (listed per run in evidence.coverage.trusted_base): contracts
 CHECKS = {
     "C01": ("proof",
             "IFORMContour._compute and ISORMContour._compute are verified against the abstract DistLike interface for every admissible conditional_on structure of 2-4 variables "
-            "(symbolic n_points, alpha): beta, shapes, the Rosenblatt clause (same row, declared column), radius, 2-D angle grid, first point = marginal quantile; ISORM's inner loop by invariant. "
+            "(symbolic n_points, alpha) and IFORM also for a SYMBOLIC number of variables (loop invariant): beta, shapes, the Rosenblatt clause (same row, declared column), radius, 2-D angle grid, "
+            "first point = marginal quantile; ISORM's inner loop by invariant. NSphere: unit-norm rows of _random_unit_sphere_points and preserved by _relax_points (declared pre: no coincident points). "
             "Bounded: the real models/NSphere are run on seeded cases (distinct directions for n_dim>=3).",
-            ASSUME + "NSphere's unit-norm rows are a contract (checked at run time only). DistLike laws (CDF(ICDF(p))=p, monotone) are refined by the family contracts of C05/C08.",
+            ASSUME + "DistLike laws (CDF(ICDF(p))=p, monotone) are refined by the family contracts of C05/C08. 'Directions distinct' for n_dim >= 3 is a bounded check.",
             TECH, "DESIGN.md 3 C01"),
     "C02": ("other",
             "Deductive: cumsum_biggest_until (prefix/content/tight/order/last/warn, 1-D arrays, induction lemmas), cell_averaged_pdf (all 2-D/3-D structures, loop invariant), "
@@ -29,9 +30,10 @@ CHECKS = {
             "interior vertices lie on both neighbouring tangent lines (generic NRA lemma + syntactic identities), n = int(100/alpha), 2-D guard. The closing vertex is a recorded known finding (bounded check).",
             ASSUME + "Declared pre-condition: the two intersected lines are not parallel.", TECH + " + bounded run-time contracts", "DESIGN.md 3 C03"),
     "C04": ("other",
-            "Bounded only in this round: run-time contracts on AndContour/OrContour for seeded samples (ray, exceedance within allowed_error unless warned, closure points, drop-not-alter). "
-            "The loop-invariant proof of the searches is designed (DESIGN.md) but not built.",
-            "Everything is bounded: seeded samples, stated counts in the evidence.", "bounded run-time contracts (deductive part not built)", "DESIGN.md 3 C04"),
+            "Deductive: AndContour._compute / OrContour._compute for symbolic sample, alpha, deg_step: every returned point lies on its ray from the stated origin, the exceedance counts compared with the target are the "
+            "AND / OR counts of the sample (count terms), the search loops exit only within allowed_error or after max_iter with the warning, points are dropped not altered, closure point appended. "
+            "Bounded: run-time contracts on the real code for seeded samples (shapely union for OR is exercised, not modelled).",
+            ASSUME + "Declared pre-conditions: finite 2-D sample, 0 < alpha < 1. shapely's unary_union / exterior ring order is bounded only.", TECH + " + bounded run-time contracts", "DESIGN.md 3 C04"),
     "C05": ("proof",
             "Every family's _get_scipy_parameters is proved (all None-patterns) to return the documented scipy slots at the effective parameters; cdf/icdf/pdf are proved against that contract for "
             "scalar/list/array x, every single-parameter override and vector parameters; explicit-vs-constructed and evaluate-fit-evaluate lemmas run the real constructors/methods; norm-fit mean/std identities by z3.",
@@ -42,7 +44,7 @@ CHECKS = {
             ASSUME + "nquad computes the iterated integral; 'integrates to one' and cdf = integral of pdf then follow by Fubini (paper).", TECH + " + bounded run-time contracts", "DESIGN.md 3 C06"),
     "C07": ("proof",
             "draw_sample of every family (same parameter map as cdf, size, caller's random_state), _get_rvs_size, ConditionalDistribution.draw_sample and GlobalHierarchicalModel.draw_sample for every structure of 1-4 "
-            "variables: row k of variable i is the (conditional) quantile of the k-th uniform of ONE threaded generator given the same row's declared conditioning value; (n, n_dim) shape. Bounded: DKW tests, bit-for-bit seeds.",
+            "variables AND for a symbolic number of variables (loop invariant): row k of variable i is the (conditional) quantile of the k-th uniform of ONE threaded generator given the same row's declared conditioning value; (n, n_dim) shape. Bounded: DKW tests, bit-for-bit seeds.",
             ASSUME + "Ghost RNG model: scipy rvs = inverse-transform of the generator's uniforms; default_rng deterministic in its seed.", TECH, "DESIGN.md 3 C07"),
     "C08": ("proof",
             "ConditionalDistribution constructor bookkeeping, _get_param_values, and end-to-end lemmas pdf/cdf/icdf/draw_sample with every real family as template and every fixed/dependent partition "
@@ -54,8 +56,9 @@ CHECKS = {
             ASSUME + "scipy fit / curve_fit invariant under permutation of their data up to optimiser tolerance (bounded).", TECH + " + bounded run-time contracts", "DESIGN.md 3 C09"),
     "C10": ("other",
             "Deductive in exact arithmetic (mode R): _drop_too_small_intervals for a symbolic number of intervals (loop invariant, induction lemma), Width/NumberOfIntervals _slice (aligned, value-based, boundaries, references, "
-            "never-two / never-none lemmas), PointsPerInterval masks over input positions (no remainder), slice_ (RuntimeError), __init__ options. Floating-point edge coincidences: exhaustive lattice run (bounded).",
-            ASSUME + "mode R cannot see float rounding on interval edges; that clause is decided by vf/rt/C10.py only (exhaustive over the stated lattice).", TECH + " + exhaustive bounded lattice", "DESIGN.md 3 C10"),
+            "never-two / never-none lemmas), PointsPerInterval masks over input positions (no remainder), slice_ (RuntimeError), __init__ options. Float-robust partition lemma: both edges of neighbouring intervals "
+            "are ONE opaque monotone sequence (no property of + or * used), so exactly-one-interval holds under any rounding of the edge arithmetic. Bounded: exhaustive float lattice run on the real code.",
+            ASSUME + "The float-robust lemma assumes only that float comparison is a total order on finite values and that the edge sequence is non-decreasing.", TECH + " + exhaustive bounded lattice", "DESIGN.md 3 C10"),
     "C11": ("proof",
             "Constructors of all families (every fixed subset), _fit_mle (keywords scipy accepts, fixed slots unchanged, unpack = inverse of pack, start values), EW _fit_lsq fixed-delta / unsupported subsets, "
             "ConditionalDistribution fixed parameters constant in g.",
